@@ -234,6 +234,25 @@ def run_check(pid, tier, seed, jobs, only=None, verbose=False, record_baseline=F
             exit_code = 1
         elif res.get('error') or res.get('detail') == 'driver gave no verdict':
             errors.append({'unit': 'bounded:' + b['obligation'], 'error': str(res)[:300]})
+    # a unit the engine could not process (unsupported construct, contract that no longer attaches) is
+    # never a verdict by itself; but if the native counterexample search of its replay driver finds a
+    # failing input on the real code, that is a violation with a real witness
+    for e in list(errors):
+        unit = e.get('unit') or ''
+        if ':' not in unit or unit.startswith('bounded:'):
+            continue
+        from .engine import short_key
+        oname = short_key(unit) + '.engine-error'
+        fake = {'name': oname, 'unit': unit, 'inputs': None, 'where': None}
+        rp = replay_mod.try_replay(pid, fake, {})
+        if rp.get('reproduced') and rp.get('class') not in known_ids:
+            path = os.path.join(OUT_DIR, 'replay', f'{pid}-{safe(oname)}.json')
+            with open(path, 'w') as f:
+                json.dump({'property': pid, 'obligation': oname, 'unit': unit,
+                           'solver_output': 'no verdict from the prover: ' + e['error'].splitlines()[0],
+                           'replay': rp}, f, indent=1, default=str)
+            lines.append(f'VIOLATION property={pid} replay={path}')
+            exit_code = 1
     if exit_code == 0 and unknown:
         exit_code = 2
     if errors:
